@@ -1,5 +1,84 @@
-(* C01 — property theorems (placeholder until the model is built). *)
-From WI Require Import Lib.Base Lib.Info Model.Safety Proofs.Safety.
-Theorem C01_placeholder : True.
-Proof. exact I. Qed.
-Print Assumptions C01_placeholder.
+(* C01 — no input can crash or hang inspection.  Statements only.
+   PARTIAL by construction (see DESIGN.md 4/C01 and the level note): proved for the repository's own
+   code as modelled; the interiors of crypto/x509, encoding/asn1, encoding/json, encoding/pem,
+   x/crypto/ssh, jks-go, putty-go and go-rpm are outside the models and only sampled. *)
+From WI Require Import Lib.Base Lib.Info Model.Dispatch Model.Safety Proofs.Safety.
+From WI Require Model.Base64 Proofs.Base64 Model.Keys Proofs.Keys Model.Curve Proofs.Curve
+                Model.Jwt Proofs.Jwt Model.Rpm Proofs.Rpm Model.PgpKey Model.PgpEntity Proofs.PgpEntity
+                Model.Der Proofs.Der Model.Walk Proofs.Walk Model.Render Proofs.Render.
+From WI Require Props.C02 Props.C10 Props.C12 Props.C13 Props.C14 Props.C16 Props.C18 Props.C19 Props.C11 Props.C06.
+From WI Require gen.Scan.
+
+(* T1: every potential run-time panic site (explicit panic, single-value type assertion, index,
+   slice) in every function reachable from main.main and the exported API of internal/file, as
+   scanned in the source NOW, is classified with exactly its current count, and no classification is
+   stale.  A new b[0], x.(T) or panic(...) anywhere in reachable code breaks this obligation. *)
+Theorem C01_sites_classified :
+  sites_classified gen.Scan.panic_sites = true /\ class_used gen.Scan.panic_sites = true.
+Proof. exact (conj sites_classified_now class_used_now). Qed.
+Print Assumptions C01_sites_classified.
+
+(* the dispatcher: whatever the file name and content, if no candidate parser panics then Inspect
+   returns a (possibly empty) description - it adds no failure of its own *)
+Theorem C01_inspect_no_panic : forall sniff parse name data,
+  (forall p e, parse p data <> Panic e) ->
+  (forall e, inspect sniff parse name data <> Panic e) /\ exists i, inspect sniff parse name data = Ok i.
+Proof. intros. split; [now apply inspect_no_panic | now apply inspect_returns]. Qed.
+Print Assumptions C01_inspect_no_panic.
+
+(* the components, each for EVERY byte string (the statements are those of the owning properties;
+   re-exported here so that C01 fails when any of them stops checking) *)
+Theorem C01_base64_no_panic : forall s site, Model.Base64.decode_any s <> Panic site.
+Proof. exact Props.C14.C14_never_panics. Qed.
+Print Assumptions C01_base64_no_panic.
+
+Theorem C01_ssh1_no_panic : forall fx dec data s,
+  Model.Keys.ssh1_parse dec data <> Panic s /\ Model.Keys.ssh1_private_key fx dec data <> Panic s.
+Proof. exact Props.C02.C02_ssh1_no_panic. Qed.
+Print Assumptions C01_ssh1_no_panic.
+
+Theorem C01_kdf_options_no_panic : forall buf off len s, Model.Keys.parse_kdf_options true buf off len <> Panic s.
+Proof. exact Props.C02.C02_kdf_no_panic. Qed.
+Print Assumptions C01_kdf_options_no_panic.
+
+Theorem C01_openssh_private_no_panic : forall lib der s,
+  Model.Keys.parse_openssh_private Model.Keys.all_fixed lib der <> Panic s.
+Proof. exact Props.C02.C02_openssh_no_panic. Qed.
+Print Assumptions C01_openssh_private_no_panic.
+
+Theorem C01_putty_no_panic : forall fx p s, Model.Keys.putty_ppk fx p <> Panic s.
+Proof. exact Props.C02.C02_putty_no_panic. Qed.
+Print Assumptions C01_putty_no_panic.
+
+Theorem C01_curve_inference_no_panic : forall p s, Model.Curve.infer p <> Panic s.
+Proof. exact Props.C16.C16_no_failure. Qed.
+Print Assumptions C01_curve_inference_no_panic.
+
+Theorem C01_jwt_no_panic : forall J s site,
+  Model.Jwt.parse_jwt J s <> Panic site /\ Model.Jwt.jwt_data J s <> Panic site.
+Proof. exact Props.C18.C18_no_panic. Qed.
+Print Assumptions C01_jwt_no_panic.
+
+Theorem C01_rpm_no_panic : forall other data,
+  (forall b s, other b <> Panic s) -> forall s, Model.Rpm.describe other data <> Panic s.
+Proof. exact Props.C19.C19_no_failure. Qed.
+Print Assumptions C01_rpm_no_panic.
+
+Theorem C01_pgp_no_panic : forall c P private stream,
+  Model.PgpKey.fix7 c = true -> Model.PgpKey.fix8 c = true -> Proofs.PgpEntity.params_np P ->
+  is_panic (Model.PgpEntity.pgp_key c P private stream) = false.
+Proof. exact Props.C12.C12_no_panic. Qed.
+Print Assumptions C01_pgp_no_panic.
+
+(* the command-line tool: never crashes, blocks only on a FIFO named explicitly as an argument *)
+Theorem C01_cli_never_crashes : forall fs argv stdin es st,
+  Model.Walk.main_run Model.Walk.repaired fs argv stdin = (es, st) ->
+  (forall p, st <> Model.Walk.Crashed p) /\
+  (forall p, st = Model.Walk.Blocked p -> In p argv /\ Model.Walk.resolve fs p = Model.Walk.SFifo).
+Proof. exact Props.C10.C10_bad_entries. Qed.
+Print Assumptions C01_cli_never_crashes.
+
+(* termination: every loop of the models is structural or fuelled, and fuel is never exhausted *)
+Theorem C01_der_fuel : forall legacy data, Model.Der.parse_raw legacy data <> Err "fuel".
+Proof. exact Props.C13.C13_fuel_unreachable. Qed.
+Print Assumptions C01_der_fuel.
